@@ -350,3 +350,97 @@ def check_dominates(check, repo, modname, qual, pass_label, key, what,
                      bad[0].node, "lineno", "?"))),
              expected="every path to a normal exit passes %s" % what)
     return ok
+
+
+def find_tests(fn, need_roots):
+    """If-nodes of `fn` whose test depends on all `need_roots` (root
+    descriptors of pyflow.roots; 'call:' entries match by suffix)."""
+    defs = local_defs(fn)
+    out = []
+    for n in walk_no_nested(fn):
+        if not isinstance(n, ast.If):
+            continue
+        r = roots(n.test, fn, defs)
+        ok = True
+        for want in need_roots:
+            if want.startswith("call:"):
+                if not any(x.startswith("call:") and x.endswith(want[5:]) for x in r):
+                    ok = False
+            elif want.endswith("*"):
+                if not any(x.startswith(want[:-1]) for x in r):
+                    ok = False
+            elif want not in r:
+                ok = False
+        if ok:
+            out.append(n)
+    out.sort(key=lambda n: n.lineno)
+    return out
+
+
+def check_decisive_test(check, repo, modname, qual, need_roots, key, what,
+                        args=None, self_attrs=None, exc="ValueError",
+                        entry=None, max_depth=4, rule="D", pick="last",
+                        self_cls=None):
+    """The decisive test of a verify-like function: an `if` whose test
+    depends on `need_roots`; one of its edges always raises `exc` and never
+    reaches a normal exit (the failing edge); every normal exit of `entry`
+    (default: the function itself) has taken the other edge."""
+    mod = repo.module(modname)
+    fn = repo.func(mod, qual)
+    cands = find_tests(fn, need_roots)
+    if not cands:
+        check.ob(rule, key, False, mod.path, fn.lineno,
+                 extracted="no test in %s depends on %s" % (qual, ", ".join(need_roots)),
+                 expected=what)
+        return None
+    emod, efn = mod, fn
+    if entry is not None:
+        emod = repo.module(entry[0])
+        efn = repo.func(emod, entry[1])
+    it = Interp(repo, max_depth=max_depth)
+    st = State()
+    me = None
+    ps = params_of(efn)
+    from .rules_g import realise
+    memo = {}
+    if ps and ps[0] == "self" and "." in efn._qualname:
+        if self_cls is not None:
+            cm = repo.module(self_cls[0])
+            me = it.new_obj(st, cm, repo.cls(cm, self_cls[1]), havoc=True)
+        else:
+            me = it.new_obj(st, emod, emod.classes.get(efn._qualname.rsplit(".", 1)[0]),
+                            havoc=True)
+        for k, v in (self_attrs or {}).items():
+            st.heap[me.ident][k] = realise(v, it, st, memo)
+    rargs = dict((k, realise(v, it, st, memo)) for k, v in (args or {}).items())
+    res = it.run(emod, efn, rargs, self_obj=me, state=st)
+    order = list(reversed(cands)) if pick == "last" else cands
+    verdict = None
+    for ifn in order:
+        label = "%s@%d:%d" % (mod.name, ifn.lineno, ifn.col_offset)
+        for fail, passed in (("T:", "F:"), ("F:", "T:")):
+            rets_fail = [o for o in res.returns() if fail + label in o.must]
+            rais_fail = [o for o in res.raises() if fail + label in o.must]
+            if rais_fail and not rets_fail and all(
+                    exc in it.exc_mro(o.exc, mod) for o in rais_fail):
+                rets = res.returns()
+                bad = [o for o in rets if passed + label not in o.must]
+                verdict = (ifn, rets, bad)
+                break
+        if verdict:
+            break
+    if verdict is None:
+        ifn = order[0]
+        check.ob(rule, key, False, mod.path, ifn.lineno,
+                 extracted="no edge of `%s` always raises %s" % (norm(ifn.test), exc),
+                 expected=what)
+        return None
+    ifn, rets, bad = verdict
+    ok = bool(rets) and not bad
+    check.ob(rule, key, ok, mod.path, ifn.lineno,
+             extracted="decisive test `%s`: %d normal exits of %s, %d reachable "
+                       "without its passing edge%s" % (
+                           norm(ifn.test), len(rets), efn.name, len(bad),
+                           "" if not bad else " (exit at line %s)" % getattr(bad[0].node, "lineno", "?")),
+             expected=what)
+    return ifn
